@@ -168,6 +168,21 @@ void h_qs_safe(void)
                      "ensures: every backslash in the output is escaped or introduces an escape");
 #endif
     __CPROVER_assert(in[g_len] == 0 && (g_len == 0 || in[0] != 0), "ensures: input not written (terminator in place)");
+    {   /* reversibility: decoding the quoted form returns the input (bounded target: the loop is unwound) */
+        size_t i = 0, j = 0;
+        _Bool same = 1;
+        while (i < lr && j < N) {
+            unsigned char o;
+            i += spec_qs_decode_one(out + i, &o);
+            if (j >= g_len || (unsigned char)in[j] != o) same = 0;
+            j++;
+        }
+#ifdef TWIN_QS_ROUNDTRIP
+        __CPROVER_assert(!(same && i == lr && j == g_len), "ensures: TWIN (negated) quoted-string round trip");
+#else
+        __CPROVER_assert(same && i == lr && j == g_len, "ensures: decoding the quoted-string form returns the original string");
+#endif
+    }
 #ifdef REACH
     __CPROVER_assert(!(out[0] == 'a' && out[1] == '\\' && out[2] == 'n' && out[3] == 'b'), "reach: copied run, escape, copied run");
     __CPROVER_assert(!(out[0] == '\\' && out[1] == '"'), "reach: escaped quote");
@@ -204,36 +219,33 @@ void h_qs_unit(void)
 }
 #endif
 
-/* ---------- whole-string round trips (bounded by N) ---------- */
-#if defined(T_ROUNDTRIP)
-void h_roundtrip(void)
+/* ---------- whole-string round trip of the mime-blob style (bounded by N); the quoted-string style is checked in qs_bounded ---------- */
+#if defined(T_MIME_ROUNDTRIP)
+void h_mime_roundtrip(void)
 {
     char x[N];
-    _Bool mime;
     x[N - 1] = 0;
     g_in0 = x;
     size_t lx = strlen(x);
     g_len = lx;
-    char *r;
-    if (mime) r = QuoteMimeBlob(x);
-    else { r = malloc(2 * lx + 1); __CPROVER_assume(r != NULL); g_out0 = r; log_quoted_string(x, r); }
+    char *r = QuoteMimeBlob(x);
     size_t lr = strlen(r);
     size_t i = 0, j = 0;
     _Bool same = 1;
     while (i < lr && j < N) {
         unsigned char o;
-        i += mime ? spec_mime_decode_one(r + i, &o) : spec_qs_decode_one(r + i, &o);
+        i += spec_mime_decode_one(r + i, &o);
         if (j >= lx || (unsigned char)x[j] != o) same = 0;
         j++;
     }
 #ifdef TWIN_ROUNDTRIP
     __CPROVER_assert(!(same && i == lr && j == lx), "ensures: TWIN (negated) round trip");
 #else
-    __CPROVER_assert(same && i == lr && j == lx, "ensures: decoding the quoted form returns the original string (both styles)");
+    __CPROVER_assert(same && i == lr && j == lx, "ensures: decoding the mime-blob quoted form returns the original string");
 #endif
 #ifdef REACH
-    __CPROVER_assert(!(mime && lx == N - 1 && x[0] == '%' && x[1] == '\n'), "reach: mime blob, full-length hostile input");
-    __CPROVER_assert(!(!mime && lx == N - 1 && x[0] == '\\' && x[1] == '"'), "reach: quoted string, full-length hostile input");
+    __CPROVER_assert(!(lx == N - 1 && x[0] == '%' && x[1] == '\n'), "reach: full-length hostile input");
+    __CPROVER_assert(!(lx == 0), "reach: empty input");
 #endif
 }
 #endif
